@@ -5,6 +5,7 @@
    field denotes; `next` = section offset + source offset + region size. *)
 From Coq Require Import ZArith List Bool.
 From Verif Require Import Codec.OffsetModel Labels.LabelsModel Labels.LabelsProofs Reloc.RelocModel Reloc.RelocProofs Reloc.InstalledImage.
+From Verif Require Import X86.X86Model Reloc.X86Meaning.
 From Verif Require Import Sections.SectionModel Sections.SectionProofs Sections.ChunkModel Sections.CopyProofs Sections.JitReloc.
 Import ListNotations.
 Local Open Scope Z_scope.
@@ -177,3 +178,66 @@ Theorem C04_installed_call_reaches : forall base atoff reserved last h text_off 
                 rel_target 64 base next d = (base + atoff + slot * REG_SIZE) mod 2 ^ 64).
 Proof. exact call_out_reaches. Qed.
 Print Assumptions C04_installed_call_reaches.
+
+(* round 3: the installed ADDRESS TABLE itself: slot i of the relocated table is found, little endian, at table offset + 8 i of the
+   installed image - so an `FF 15 [rip + rel32]` proven above to point at base + atoff + 8 slot reads the target there *)
+Theorem C04_installed_table_slot : forall st calls base fill final img h2,
+  wf_holder (jh st) -> data_len_ok (jh st) ->
+  (forall h1, flatten (jh st) = (EOk, h1) -> NoDup (map sid h1) /\ (forall s, In s h1 -> 0 <= sid s)) ->
+  jit_add_reloc st calls base fill = (JOk, final, img, h2) ->
+  forall t, jtab st = Some t ->
+  exists h1 text atoff reserved last r,
+    flatten (jh st) = (EOk, h1) /\ by_id h1 0 = Some text /\
+    relocate base REG_SIZE atoff reserved last (map (site_entry h1 (soff text)) calls) = inl r /\
+    (forall ts, by_id h1 t = Some ts -> atoff = soff ts /\
+       forall i a k, nth_error (rr_table r) i = Some a -> 0 <= k < 8 -> soff ts + 8 * Z.of_nat i + k < final ->
+         cell (flat img) (soff ts + 8 * Z.of_nat i + k) = cell (le_bytes 8 a) k).
+Proof. exact installed_table_slot. Qed.
+Print Assumptions C04_installed_table_slot.
+
+(* round 3: a relocation kind other than call sites - an embedded label address (embed_label, RelToAbs): the 8 installed bytes are
+   (label offset + base + offset of the label's section) mod 2^64, little endian *)
+Theorem C04_installed_abs_site : forall st calls base fill final img h2 i pos target loff,
+  wf_holder (jh st) -> data_len_ok (jh st) ->
+  (forall h1, flatten (jh st) = (EOk, h1) -> NoDup (map sid h1) /\ (forall s, In s h1 -> 0 <= sid s)) ->
+  jtab st <> Some 0 -> (forall h off, sites_disjoint (map (site_entry h off) calls)) ->
+  jit_add_reloc st calls base fill = (JOk, final, img, h2) ->
+  nth_error calls i = Some (SAbs pos target loff) ->
+  exists h1 text ts w,
+    flatten (jh st) = (EOk, h1) /\ by_id h1 0 = Some text /\ by_id h1 target = Some ts /\
+    w = (loff + base + soff ts) mod 2 ^ 64 /\
+    (forall k, 0 <= k < 8 -> soff text + pos + k < final -> cell (flat img) (soff text + pos + k) = cell (le_bytes 8 w) k).
+Proof. exact installed_abs_site. Qed.
+Print Assumptions C04_installed_abs_site.
+
+(* ---- round 3: run-time meaning through C01's PROVEN structural decoder (Verif.X86.X86Model.sdec; round trip X86Proofs.sdec_senc) instead
+   of the hand-written reference semantics.  `site_target m class shape addr bytes` decodes the bytes at a site and returns the address the
+   instruction designates (RIP-relative: end of instruction + disp32; absolute disp32; branch: end + rel32).  An instruction (any
+   structural instruction C01's round trip covers) whose displacement / immediate field holds the word relocate_to_base wrote designates
+   the relocation's absolute target: ---- *)
+Theorem C04_rip_operand_designates_target : forall base asize atoff slots e o slots' sh s c reg rest,
+  relocate_entry base asize atoff slots e = inl (o, slots') ->
+  e_kind e = RAbsToRel -> 4 < asize -> e_fmt e = fmt_of_kind K_Rel32 -> e_old e = 0 ->
+  s_modrm s = MMem reg (mkM BRip None 0 (sext32 (o_word o))) -> wf M64 sh s = true -> adm M64 sh s c = true ->
+  e_region e = Z.of_nat (length (senc M64 sh s c)) ->
+  site_target M64 CMem sh (base + e_secoff e + e_off e) (senc M64 sh s c ++ rest) = Some (e_payload e mod 2 ^ 64).
+Proof. exact rip_operand_designates_target. Qed.
+Print Assumptions C04_rip_operand_designates_target.
+
+Theorem C04_branch_designates_target : forall base asize atoff slots e o slots' (m : mode) sh s c xr xx xb xr' rest,
+  relocate_entry base asize atoff slots e = inl (o, slots') ->
+  e_kind e = RAbsToRel -> (if is64 m then 4 <? asize else asize <=? 4) = true -> e_fmt e = fmt_of_kind K_Rel32 -> e_old e = 0 ->
+  s_modrm s = MNone xr xx xb xr' -> s_imm s = o_word o -> wf m sh s = true -> adm m sh s c = true ->
+  e_region e = Z.of_nat (length (senc m sh s c)) ->
+  site_target m CBranch sh (base + e_secoff e + e_off e) (senc m sh s c ++ rest) = Some (e_payload e mod 2 ^ abits m).
+Proof. exact branch_designates_target. Qed.
+Print Assumptions C04_branch_designates_target.
+
+Theorem C04_abs32_operand_designates_target : forall base asize atoff slots e o slots' sh s c reg toff rest,
+  relocate_entry base asize atoff slots e = inl (o, slots') ->
+  e_kind e = RRelToAbs (Some toff) -> e_fmt e = ufmt 4 -> e_old e = 0 ->
+  s_modrm s = MMem reg (mkM BNone None 0 (sext32 (o_word o))) -> wf M32 sh s = true -> adm M32 sh s c = true ->
+  site_target M32 CMem sh (base + e_secoff e + e_off e) (senc M32 sh s c ++ rest) = Some ((e_payload e + base + toff) mod 2 ^ 64) /\
+  (e_payload e + base + toff) mod 2 ^ 64 < 2 ^ 32.
+Proof. exact abs32_operand_designates_target. Qed.
+Print Assumptions C04_abs32_operand_designates_target.
